@@ -268,7 +268,7 @@ def replay_harness(prop, h, fcs, logs_dir):
         return False, None, "overlay: %s" % e
     try:
         r = kani.run_harness(crate, os.path.join(root, "t_pb"), h, int(hspec.get("timeout", 300) * 3),
-                             hspec.get("mem", 8) * 2.5, os.path.join(logs_dir, h + ".playback.log"),
+                             max(24, hspec.get("mem", 8) * 4), os.path.join(logs_dir, h + ".playback.log"),
                              playback="print", extra=hspec.get("extra"), fs=hspec.get("fs", 4096))
         if r.status != "failed":
             return False, None, "playback generation run did not fail again (%s %s)" % (r.status, r.reason)
